@@ -1,5 +1,5 @@
 (* Properties/C11.v — Cache: a hit skips everything inside it; only cacheable results are stored. *)
-From FS Require Import Model.Exec Proofs.ExecProofs Corr.C11.
+From FS Require Import Model.CacheGen Proofs.CacheGenProofs Model.Exec Proofs.ExecProofs Corr.C11.
 
 Theorem C11_hit_skips_inner : forall pos inst cfg (inner : layer) c w v,
   cache_key w cfg <> 0 -> cache_get (nth inst (w_caches w) []) (cache_key w cfg) = Some v ->
@@ -31,3 +31,26 @@ Print Assumptions C11_context_key_precedence.
 Theorem C11_configured_key_otherwise : forall w cfg, (forall k, w_ctxkey w <> CKStr k) -> cache_key w cfg = ca_key cfg.
 Proof. exact cache_configured_key_otherwise. Qed.
 Print Assumptions C11_configured_key_otherwise.
+
+(* ---- for EVERY result type and every cache content (Model/CacheGen.v; the policies of Model/Exec.v return integers):
+   no value -- zero, nil, empty -- is special ---- *)
+Theorem C11_any_type_hit_returns_cached_value : forall (V : Type) (l : store V) k v fn,
+  k <> 0 -> cget l k = Some v -> cache_exec l k fn = (v, false, l).
+Proof. exact hit_returns_cached_value. Qed.
+Print Assumptions C11_any_type_hit_returns_cached_value.
+
+Theorem C11_any_type_miss_runs_and_stores : forall (V : Type) (l : store V) k fn,
+  k <> 0 -> cget l k = None -> cache_exec l k fn = (fn, true, cset l k fn).
+Proof. exact miss_runs_and_stores. Qed.
+Print Assumptions C11_any_type_miss_runs_and_stores.
+
+Theorem C11_any_type_second_execution_hits : forall (V : Type) (l : store V) k v1 v2,
+  k <> 0 -> cget l k = None ->
+  let l1 := snd (cache_exec l k v1) in cache_exec l1 k v2 = (v1, false, l1).
+Proof. exact second_execution_hits. Qed.
+Print Assumptions C11_any_type_second_execution_hits.
+
+Theorem C11_any_type_other_keys_untouched : forall (V : Type) (l : store V) k k' fn,
+  k' <> k -> cget (snd (cache_exec l k fn)) k' = cget l k'.
+Proof. exact other_keys_untouched. Qed.
+Print Assumptions C11_any_type_other_keys_untouched.
